@@ -43,6 +43,24 @@ REG = {
         ],
         "trusted_base": ["modelled, not verified: path/filepath, charmap.Macintosh, the kernel's path resolution"],
     },
+    "C08": {
+        "corr_modules": ["Corr.Run_C09"],
+        "assumptions": [
+            "the header fields the property does not constrain (type/creator signatures, dates of a file without a stored info fork) are inputs of the model, read from the header itself",
+            "reading the file (os.Open, bufio.Discard, io.Copy) is modelled as returning the file's bytes; the file does not change during the transfer",
+            "after a non-resumed, non-preview download of a file without resource fork the code appends an empty MACR fork header (16 bytes) beyond the announced transfer size; the statement is read as not forbidding it (DESIGN.md C08)",
+        ],
+        "trusted_base": ["modelled, not verified: os file reads, io.Copy, bufio"],
+    },
+    "C09": {
+        "assumptions": [
+            "the client is the honest resuming client of the statement: it asks for the resume offset whenever a partial file may exist and sends exactly the remaining bytes (a client that re-uploads from byte 0 onto an existing partial file gets prefix ++ data: outside the quantifier, noted in DESIGN.md)",
+            "default configuration (PreserveResourceForks off): fork side files are not written",
+            "append-mode writes and rename are atomic at the granularity observed after the handler returns; crash points inside an upload are C20-like and not part of C09",
+            "one upload of a name at a time (two simultaneous uploads of one name interleave appends: a schedule, outside the quantifier)",
+        ],
+        "trusted_base": ["modelled, not verified: os.OpenFile(O_APPEND), io.CopyN, os.Rename"],
+    },
     "C13": {
         "assumptions": [
             "notifications are applied by the client in the order the server queued them (the statement quantifies histories, not schedules); the harness delivers the outbox sequentially through the real sendTransaction and uses a keep-alive round trip as barrier",
